@@ -276,3 +276,25 @@ contract(U + "StringBase.match@str",
     ensures={"iff_equal": "(result is not None) == (pattern == string)",
              "text_kept_verbatim": "implies(result is not None, nonnull(result)[0] == string)"},
     raises=[], serves=["C02"])
+
+# U17: WORDClsBase.match with a keyword string - "KEYWORD [ [ :: ] rest ]" (C02: the rest goes to the rule whole; C08 keywords)
+WL = "string.lstrip()"
+AFTER = WL + "[len(keyword):]"
+contract(U + "WORDClsBase.match@keyword",
+    types=dict(keyword="str", cls="cls?", string="str", colons="bool", require_cls="bool"),
+    defaults=dict(colons=False, require_cls=False),
+    returns="tuple[str,ref:Base?]?",
+    modifies=["rule_evals"],
+    calls={"cls": "proto:operand_rule", "isalnum": "pure:bool"},
+    ensures={
+        "keyword_must_lead": "implies(" + WL + "[:len(keyword)].upper() != keyword.upper(), result is None)",
+        "keyword_reported": "implies(result is not None, nonnull(result)[0] == keyword)",
+        "rest_goes_to_the_rule_whole": "implies(result is not None and nonnull(result)[1] is not None, cls is not None and "
+                                       "(rule_text(nonnull(nonnull(result)[1])) == " + AFTER + ".lstrip() or "
+                                       "(colons and " + AFTER + ".lstrip().startswith('::') and rule_text(nonnull(nonnull(result)[1])) == " + AFTER + ".lstrip()[2:].lstrip())))",
+        "no_rule_node_only_without_rest": "implies(result is not None and nonnull(result)[1] is None, not require_cls and "
+                                          "(" + AFTER + ".lstrip() == '' or (colons and False)))",
+    },
+    raises={"*": {}},
+    serves=["C02"],
+)
